@@ -28,7 +28,7 @@ def main():
         args = [a for a in args if a != tier]
     sd = os.path.join(VERIF, "seeded")
     names = args or sorted(n for n in os.listdir(sd) if os.path.isdir(os.path.join(sd, n)))
-    res_path = os.path.join(sd, "RESULTS.json")
+    res_path = os.environ.get("SEEDED_RESULTS") or os.path.join(sd, "RESULTS.json")   # parallel workers write their own file (tools/run_seeded_all.py merges)
     results = json.load(open(res_path)) if os.path.exists(res_path) else {}
     for name in names:
         d = os.path.join(sd, name)
